@@ -891,6 +891,8 @@ def schema_writeback(repo: Repo, name: str):
         if isinstance(lp, ast.For) and pairs is not None and isinstance(lp.iter, ast.Name) and isinstance(lp.target, ast.Tuple) and len(lp.target.elts) == 2 and isinstance(lp.target.elts[0], ast.Name):
             walk_loop(lp.body, lp.target.elts[0].id, [])
     facts["copies"] = copies
+    # a copy_ somewhere in the region that the loop vocabulary above did not recognise: undecided rather than "never writes back"
+    facts["other_copies"] = [x.lineno for x in rnodes if isinstance(x, ast.Call) and isinstance(x.func, ast.Attribute) and x.func.attr == "copy_"] if not copies else []
     # the scale of what is copied
     facts["quant"] = None
     if quant is not None:
